@@ -67,8 +67,10 @@ def run(ctx):
     changed = True
     while changed:
         changed = False
-        for o in owners:
-            if o not in allowed and refs.get(o) and refs[o] <= allowed:
+        for o in list(refs):
+            g_ = util.local_fn(F, o)
+            private = g_ is not None and not (g_.get("vis") or "").startswith("Public") and not g_.get("impl_trait")
+            if o not in allowed and private and refs.get(o) and refs[o] <= allowed:
                 allowed.add(o)
                 changed = True
     ctx.ob("C10.first", "who writes Header.shape_type", bool(owners) and set(owners) <= allowed and fw["def"] in allowed,
